@@ -648,6 +648,11 @@ class World(object):
                 same_start.setdefault((self.case["pool"][i], ms), []).append(i)
         for t in sorted(m.explicit):
             fresh.get_or_add_point(t)  # explicitly created (still empty) points are part of the state
+        if fresh.quarter_durations().tolist() != part.quarter_durations().tolist():
+            # set_quarter_duration may drop an entry that repeats the preceding value, so the table (part of the
+            # state: it bounds the domain of the maps) cannot always be rebuilt through the public API
+            self.res.count("views_maps_skipped:table_not_rebuildable")
+            return got
         ambiguous = set(c for (c, t), l in same_start.items() if len(l) > 1)
         pts = m.point_times()
         ts = np.arange(pts[0], pts[-1] + 1)
